@@ -570,6 +570,9 @@ func callSSA(i *interpreter, caller *frame, callpos token.Pos, fn *ssa.Function,
 		if r, handled := i.sym.intercept(fr, name, fn, args); handled {
 			return r
 		}
+		if fn.Blocks == nil && fn.Pkg != nil {
+			fn.Pkg.Build() // on-demand SSA construction (idempotent, synchronised)
+		}
 		if fn.Blocks == nil {
 			panic(unsupported("no code for function: " + name))
 		}
